@@ -624,7 +624,8 @@ func (m *intraProxyManager) ensureStream(
 	// Fast path: already exists
 	m.streamsMu.RLock()
 	if ps, ok := m.peers[peerNodeName]; ok && ps != nil {
-		if r, ok2 := ps.receivers[key]; ok2 && r != nil && r.streamClient != nil {
+		// also while it is still opening: the entry leaves the table when its goroutine ends or it is pruned
+		if r, ok2 := ps.receivers[key]; ok2 && r != nil {
 			m.streamsMu.RUnlock()
 			logger.Debug("ensureStream reused")
 			return nil
